@@ -114,6 +114,7 @@ impl<H: Hasher> BatchMerkleProof<H> {
     /// * Any of the specified `indexes` is greater than or equal to the number of leaves in the
     ///   tree for which this batch proof was generated.
     /// * List of indexes contains duplicates.
+    /// * The depth of the proof is 64 or more (a tree cannot have that many leaves).
     /// * The proof does not resolve to a single root.
     pub fn get_root(&self, indexes: &[usize]) -> Result<H::Digest, MerkleTreeError> {
         if indexes.is_empty() {
@@ -121,6 +122,9 @@ impl<H: Hasher> BatchMerkleProof<H> {
         }
         if indexes.len() > MAX_PATHS {
             return Err(MerkleTreeError::TooManyLeafIndexes(MAX_PATHS, indexes.len()));
+        }
+        if self.depth as u32 >= usize::BITS {
+            return Err(MerkleTreeError::InvalidProof);
         }
 
         let mut buf = [H::Digest::default(); 2];
@@ -249,6 +253,7 @@ impl<H: Hasher> BatchMerkleProof<H> {
     /// * No indexes were provided (i.e., `indexes` is an empty slice).
     /// * Number of provided indexes is greater than 255.
     /// * Number of provided indexes does not match the number of leaf nodes in the proof.
+    /// * The depth of the proof is 64 or more (a tree cannot have that many leaves).
     pub fn into_paths(self, indexes: &[usize]) -> Result<Vec<Vec<H::Digest>>, MerkleTreeError> {
         if indexes.is_empty() {
             return Err(MerkleTreeError::TooFewLeafIndexes);
@@ -257,6 +262,9 @@ impl<H: Hasher> BatchMerkleProof<H> {
             return Err(MerkleTreeError::TooManyLeafIndexes(MAX_PATHS, indexes.len()));
         }
         if indexes.len() != self.leaves.len() {
+            return Err(MerkleTreeError::InvalidProof);
+        }
+        if self.depth as u32 >= usize::BITS {
             return Err(MerkleTreeError::InvalidProof);
         }
 
